@@ -82,12 +82,40 @@ def _canon_object(v, t, _memo, _depth):
         return ['global', t.__module__, red]
     out = ['object', t.__module__ + '.' + t.__qualname__, canon(red[0], _memo, _depth + 1), canon(tuple(red[1]), _memo, _depth + 1)]
     if len(red) > 2 and red[2] is not None:
-        out.append(canon(red[2], _memo, _depth + 1))
+        out.append(canon(_without_declared_caches(t, red[2]), _memo, _depth + 1))
     if len(red) > 3 and red[3] is not None:
         out.append(['listitems', [canon(x, _memo, _depth + 1) for x in red[3]]])
     if len(red) > 4 and red[4] is not None:
         out.append(['dictitems', [[canon(k, _memo, _depth + 1), canon(x, _memo, _depth + 1)] for k, x in red[4]]])
     return out
+
+
+_MEMO_NAME = __import__('re').compile(r'^_[A-Za-z0-9]+(_[A-Za-z0-9]+)*__cached_\w+$')
+
+
+def is_declared_cache(t, name):
+    """True for instance-state entries that the CLASS declares to be a lazily filled cache of a value derived from the
+    rest of the state: functools.cached_property descriptors (they store their result in __dict__[name]) and
+    name-mangled private '__cached_*' memos (nutils.function's `_ArrayMeta__cached_lower`, set by the first lower()).
+    Whether such an entry is present depends on what the process did with the object before, not on the value: the
+    default pickle state carries it along, an object freshly built by another process lacks it."""
+    if not isinstance(name, str):
+        return False
+    if _MEMO_NAME.match(name):
+        return True
+    import inspect, functools
+    try:
+        return isinstance(inspect.getattr_static(t, name), functools.cached_property)
+    except AttributeError:
+        return False
+
+
+def _without_declared_caches(t, state):
+    if isinstance(state, dict):
+        return {k: x for k, x in state.items() if not is_declared_cache(t, k)}
+    if isinstance(state, tuple) and len(state) == 2 and all(x is None or isinstance(x, dict) for x in state):     # (dict, slots) form
+        return tuple(x if x is None else {k: y for k, y in x.items() if not is_declared_cache(t, k)} for x in state)
+    return state
 
 
 def canon_key(c):
